@@ -1081,7 +1081,8 @@ class ChoiceMap(Pytree):
 
         for addr, v in pairs:
             addr = addr if isinstance(addr, tuple) else (addr,)
-            acc |= ChoiceMap.entry(v, *addr)
+            # later pairs overwrite earlier ones: `|` is left-biased, so the new entry goes first
+            acc = ChoiceMap.entry(v, *addr) | acc
 
         return acc
 
